@@ -4,6 +4,7 @@ import LoguruModel.Exc.Lemmas
 C13 – the statement-level `_extract_frames` (`extractLoop`, built from the regenerated kernels)
 computes what the list-level model `extractFrames` says.
 -/
+set_option linter.unusedSimpArgs false
 namespace Exc
 open Py
 
@@ -73,7 +74,19 @@ theorem limitSlice_eq_applyLimit {α : Type} (k : Int) (hk : 0 < k) (l : List α
 
 theorem earlyReturn_eq_limitBlocks (limit : Option Int) :
     Gen.earlyReturn false limit.isNone (limit.getD 0) = limitBlocks limit := by
-  cases limit <;> simp [Gen.earlyReturn, limitBlocks]
+  cases limit with
+  | none => simp [Gen.earlyReturn, limitBlocks]
+  | some k =>
+    -- whichever way the source spells "limit is not positive" (`<= 0`, `not > 0`, `< 1`, `not >= 1`)
+    by_cases h : k ≤ 0
+    · have h1 : ¬ 0 < k := by omega
+      have h2 : k < 1 := by omega
+      have h3 : ¬ 1 ≤ k := by omega
+      simp [Gen.earlyReturn, limitBlocks, h, h1, h2, h3]
+    · have h1 : 0 < k := by omega
+      have h2 : ¬ k < 1 := by omega
+      have h3 : 1 ≤ k := by omega
+      simp [Gen.earlyReturn, limitBlocks, h, h1, h2, h3]
 
 /-- the list-level description of `infos` before the limit -/
 def infosSpec (o : Opts) (isFirst fromDec : Bool) (t0 : Frame) (rest parents : List Frame) : List Shown :=
